@@ -344,3 +344,25 @@ def stmt_reaches(an, f, astnode, qnames):
                         if hit:
                             return hit
     return None
+
+
+def reset_before_dispatch(prog, an, rep, pid):
+    """BertE.process resets the working clone before dispatching the job;
+    Repository.reset makes a fresh directory and clears the remote caches."""
+    R = pid + '.MPT.fresh-clone'
+    f = need_func(an, 'bert_e.bert_e.BertE.process')
+    mpt(an, rep, R, f, Spec.method('dispatch', r'^self$'),
+        [Spec.method('reset', r'git_repo$')], depth=0,
+        why='every job starts from a fresh working clone')
+    g = need_func(an, 'bert_e.lib.git.Repository.reset')
+    txt = {dotted(t): src(n.value)
+           for n in walk_local(g.node, include_root=False)
+           if isinstance(n, ast.Assign) for t in n.targets
+           if dotted(t)}
+    rep.evaluated()
+    ok = txt.get('self.tmp_directory', '').startswith('mkdtemp(') and \
+        'self._remote_heads' in txt and 'self._remote_branches' in txt and \
+        'self.cmd_directory' in txt
+    rep.check(ok, R, g.qname + ': new temporary directory, remote caches '
+              'cleared', g.where(), 'Repository.reset assigns %s' %
+              sorted(txt), detail=str(sorted(txt.items())))
